@@ -39,7 +39,9 @@ def showCache : Cache → String
 
 def showMsg (m : Msg) : String :=
   let cl := match m.cl with | some n => toString n | none => "none"
-  s!"{showOptBytes m.raw},{showOptBytes m.ce},{if m.te then 1 else 0},{cl}"
+  let tr := match m.tr with | .absent => 0 | .empty => 1 | .nonEmpty => 2
+  let ver := match m.ver with | .h11 => 0 | .h2 => 1 | .h3 => 2
+  s!"{showOptBytes m.raw},{showOptBytes m.ce},{if m.te then 1 else 0},{cl},{tr},{ver}"
 
 /-- driver session: the model state plus the last bytes value a `dec` / `get` op returned — so that the histories'
     value modes `last` (`m.content = m.content`-style re-assignment) and `rawof j` (another message's raw body) are
@@ -113,6 +115,22 @@ def c31Step (s : Sess) (line : String) : Sess × String :=
       else match n.toNat? with
         | some k => doOp s (.setCl i (some k)) .verr
         | none => bad s
+    | none => bad s
+  | ["tr", i, t] =>
+    match parseBool i with
+    | some i =>
+      if t = "0" then doOp s (.setTr i .absent) .verr
+      else if t = "1" then doOp s (.setTr i .empty) .verr
+      else if t = "2" then doOp s (.setTr i .nonEmpty) .verr
+      else bad s
+    | none => bad s
+  | ["ver", i, w] =>
+    match parseBool i with
+    | some i =>
+      if w = "0" then doOp s (.setVer i .h11) .verr
+      else if w = "1" then doOp s (.setVer i .h2) .verr
+      else if w = "2" then doOp s (.setVer i .h3) .verr
+      else bad s
     | none => bad s
   | _ => bad s
 
